@@ -3,7 +3,9 @@
           optimizer off, mapped one-to-one to abstract instructions, must equal
           compile_ctl skeleton (offsets and slot numbers included).
    KRun:  the trace printed by the real VM running that code (optimizer off) must be the trace of
-          the abstract machine of Model/Ctl.v under the same oracle.
+          the abstract machine of Model/Ctl.v AND of the GoSpec/GoCtl.v evaluator under the same oracle.
+   KRef:  the trace the harness predicted with its Go rendering of GoCtl (sent when the real VM
+          differed from it: certifies the expected trace of a failing input).
    KSem:  the trace printed by the program built with the Go toolchain must be the trace of the
           GoSpec/GoCtl.v evaluator under the same oracle. *)
 From Coq Require Import ZArith List Bool.
@@ -59,37 +61,46 @@ Fixpoint trace_eqb (a b : trace) : bool :=
   | _, _ => false
   end.
 
-(* the functions c, rs, tg of the generated programs: n counts their calls *)
-Fixpoint ncalls (tr : trace) : Z :=
+(* the functions c, rs, tg of the generated programs answer from a vector: the i-th evaluated condition
+   gets bit (i mod cm) of cb, the i-th range expression a slice whose length is the 2-bit digit (i mod 4)
+   of lv, the i-th switch tag the 4-bit digit (i mod 4) of tv *)
+Fixpoint count_ev (f : event -> bool) (tr : trace) : Z :=
   match tr with
   | [] => 0
-  | EvEmit _ :: r => ncalls r
-  | _ :: r => ncalls r + 1
+  | e :: r => (if f e then 1 else 0) + count_ev f r
   end.
+Definition is_cond (e : event) := match e with EvCond _ => true | _ => false end.
+Definition is_range (e : event) := match e with EvRange _ => true | _ => false end.
+Definition is_tag (e : event) := match e with EvTag _ => true | _ => false end.
 
-Definition pat_oracle (sd : Z) : oracle :=
-  mkOracle (fun tr k => let n := ncalls tr + 1 in (((n * n + k) * sd) mod 7) <? 4)
-           (fun tr k => let n := ncalls tr + 1 in Z.to_nat ((n + k + sd) mod 3))
-           (fun tr k => let n := ncalls tr + 1 in (n + k + sd) mod 4).
+Definition vec_oracle (cb cm lv tv : Z) : oracle :=
+  mkOracle (fun tr _ => Z.testbit cb (count_ev is_cond tr mod cm))
+           (fun tr _ => Z.to_nat (Z.land (Z.shiftr lv (2 * (count_ev is_range tr mod 4))) 3))
+           (fun tr _ => Z.land (Z.shiftr tv (4 * (count_ev is_tag tr mod 4))) 15).
 
 Inductive ccase :=
 | KCode (b : block) (real : list rins)
-| KRun (b : block) (sd : Z) (obs : list event)
-| KSem (b : block) (sd : Z) (obs : list event).
+| KRun (b : block) (cb cm lv tv : Z) (obs : list event)    (* real VM, optimizer off *)
+| KRef (b : block) (cb cm lv tv : Z) (pred : list event)   (* the harness's rendering of GoCtl *)
+| KSem (b : block) (cb cm lv tv : Z) (obs : list event).   (* Go toolchain *)
+
+Definition spec_trace (b : block) (o : oracle) (t : list event) : bool :=
+  match exec_block o 5000 b [] with
+  | Some (Normal, t') | Some (Ret, t') => trace_eqb (rev t') t
+  | _ => false
+  end.
 
 Definition run_ccase (c : ccase) : bool :=
   match c with
   | KCode b real => code_eqb (compile_ctl b) real
-  | KRun b sd obs =>
-      match run (pat_oracle sd) 20000 (compile_ctl b) init_cfg with
+  | KRun b cb cm lv tv obs =>
+      (* the abstract machine on the model's code AND Go's semantics both give the observed trace *)
+      match run (vec_oracle cb cm lv tv) 20000 (compile_ctl b) init_cfg with
       | Finished t [] | Ret_at _ t [] => trace_eqb (rev t) obs
       | _ => false
-      end
-  | KSem b sd obs =>
-      match exec_block (pat_oracle sd) 5000 b [] with
-      | Some (Normal, t) | Some (Ret, t) => trace_eqb (rev t) obs
-      | _ => false
-      end
+      end && spec_trace b (vec_oracle cb cm lv tv) obs
+  | KRef b cb cm lv tv t => spec_trace b (vec_oracle cb cm lv tv) t
+  | KSem b cb cm lv tv t => spec_trace b (vec_oracle cb cm lv tv) t
   end.
 
 Definition xmismatches (base : Z) (cs : list ccase) : list Z := mismatches_from run_ccase base cs.
